@@ -160,6 +160,15 @@ def build_cli_cases(scr, callables, cli_only, seed, thorough):
     add("inplace-two-dirs", "cli:in-place", "two files in two directories",
         ["-i", "-c", ".p |= ltrimstr(\"/\") | .c = \"%s/canary/secret.txt\"" % scr, ia, ib], inputs=[ia, ib], inplace=True)
     add("no-inplace", "cli:in-place", "same program without -i", [".a = \"/etc/passwd\"", ia], inputs=[ia])
+    # --in-place runs that end early: only the temp file next to the input may have been touched, and it must be gone
+    fl = scr + "/inplace/fail/"
+    add("inplace-error", "cli:in-place-fails", "filter error after two outputs",
+        ["-i", ".[] | if . == 3 then error(\"boom\") else . end", fl + "err.json"], inputs=[fl + "err.json"], inplace=True)
+    add("inplace-halt", "cli:in-place-fails", "halt after one output", ["-i", ".[0], halt(7)", fl + "halt.json"], inputs=[fl + "halt.json"], inplace=True)
+    add("inplace-parse", "cli:in-place-fails", "malformed third value", ["-i", ".", fl + "parse.json"], inputs=[fl + "parse.json"], inplace=True)
+    add("inplace-error-then-later", "cli:in-place-fails", "first file fails, later file untouched",
+        ["-i", ".[] | if . == 4 then error(\"x\") else . end", fl + "later.json", fl + "empty-out.json"],
+        inputs=[fl + "later.json", fl + "empty-out.json"], inplace=True)
     return cases
 
 
@@ -423,7 +432,18 @@ def main():
         for p in sorted(set(before) & set(after)):
             if before[p] != after[p] and not os.path.isdir(os.path.join(scr, p)):
                 run.violation("fs-state:file-changed", {"mode": "fs-state", "path": p, "before": before[p], "after": after[p], "scratch": scr})
-        leftovers = [n for d in ("a", "b") for n in os.listdir(os.path.join(scr, "inplace", d)) if n.startswith("jaq")]
+        leftovers = [d + "/" + n for d in ("a", "b", "fail") for n in os.listdir(os.path.join(scr, "inplace", d)) if n.startswith("jaq")]
+        for n in leftovers:
+            # every jaq process has ended: a temporary file that is still there is a file the run created
+            # which is not the documented in-place output file
+            run.violation("fs-state:in-place-temp-file-left-behind",
+                          {"mode": "fs-state", "path": "inplace/" + n, "scratch": scr,
+                           "content": open(os.path.join(scr, "inplace", n), "rb").read(200).decode("utf-8", "replace")})
+        for name, text in R.INPLACE_FAIL_FILES.items():
+            got = open(os.path.join(scr, "inplace", "fail", name), "rb").read().decode("utf-8", "replace")
+            if got != text:
+                run.violation("fs-state:in-place-input-changed-by-failing-run",
+                              {"mode": "fs-state", "path": "inplace/fail/" + name, "before": text, "after": got[:200], "scratch": scr})
         if control_phases == 0 or markers == 0:
             broken = broken or "no execution phase of the control program was found in the logs"
         if phases < cases_sent * 0.5:
